@@ -18,9 +18,13 @@ CAN_SWAP = {'array', 'list', 'hashmap', 'hashset', 'poollist', 'poolmap'}
 # observations come from the extracted spec / model.
 # ------------------------------------------------------------------------------------------
 class Pic:
-    def __init__(self):
+    def __init__(self, collide=False):
         self.kind = [None] * NV
         self.size = [0] * NV
+        self.collide = collide
+
+    def key(self, rng):
+        return rng.choice(COLLIDING) if self.collide else small(rng)
 
     def live(self):
         return [x for x in range(NV) if self.kind[x]]
@@ -31,6 +35,12 @@ class Pic:
 
 def small(rng):
     return rng.randrange(0, 7)
+
+
+# HashMap / HashSet / PoolMap: 500 buckets by default and hash(key) = payload in the harness, so
+# these keys share buckets (1, 501, 1001, 1501) and (2, 502)
+TABLE = ('hashmap', 'hashset', 'poolmap')
+COLLIDING = [1, 501, 1001, 1501, 2, 502]
 
 
 def ref(rng, pic, x, alias, want_key):
@@ -53,15 +63,15 @@ def ins_op(rng, pic, x, alias, p=None):
     n = pic.size[x]
     if p is None:
         p = rng.choice(['f', 'b', 'b', str(rng.randrange(n + 1))])
-    ka = (ref(rng, pic, x, alias, True) or str(small(rng))) if k in HAS_KEY else '-'
+    ka = (ref(rng, pic, x, alias, True) or str(pic.key(rng))) if k in HAS_KEY else '-'
     va = (ref(rng, pic, x, alias, False) or str(small(rng))) if k in NEED_VAL else '-'
     pic.size[x] += 1
     return 'ins %d %s %s %s' % (x, p, ka, va)
 
 
-def gen_case(rng, kind, nops, alias=0.25, valid=True, mixed=False):
+def gen_case(rng, kind, nops, alias=0.25, valid=True, mixed=False, collide=False):
     """history over NV variables of one kind (or two kinds)"""
-    pic = Pic()
+    pic = Pic(collide)
     ops = []
     kinds = [kind] if not mixed else [kind, rng.choice(KINDS)]
 
@@ -93,11 +103,21 @@ def gen_case(rng, kind, nops, alias=0.25, valid=True, mixed=False):
             ops.append(ins_op(rng, pic, x, alias))
         elif r < 0.57:
             i = rng.choice([0, max(n - 1, 0), rng.randrange(max(n, 1))]) if valid else rng.randrange(n + 2)
-            ops.append('remat %d %d' % (x, i))
-            if i < n:
-                pic.size[x] -= 1
+            how = rng.random()
+            if how < 0.25 and (n > 0 or not valid):
+                ops.append('rempop %d %s' % (x, rng.choice('fb')))     # removeFront() / removeBack()
+                if n > 0:
+                    pic.size[x] -= 1
+            elif how < 0.5 and (k == 'array' or not valid):
+                ops.append('rematit %d %d' % (x, i))                   # Array::remove(const Iterator&)
+                if i < n and k == 'array':
+                    pic.size[x] -= 1
+            else:
+                ops.append('remat %d %d' % (x, i))
+                if i < n:
+                    pic.size[x] -= 1
         elif r < 0.63:
-            a = (ref(rng, pic, x, alias, True) if k in HAS_KEY else ref(rng, pic, x, alias, False)) or str(small(rng))
+            a = (ref(rng, pic, x, alias, True) if k in HAS_KEY else ref(rng, pic, x, alias, False)) or str(pic.key(rng) if k in HAS_KEY else small(rng))
             if not valid and rng.random() < 0.2:
                 a = rng.choice(['k%d.%d' % (rng.randrange(NV), rng.randrange(5)), 'v%d.%d' % (rng.randrange(NV), rng.randrange(5))])
             ops.append('remkey %d %s' % (x, a))
@@ -126,6 +146,14 @@ def gen_case(rng, kind, nops, alias=0.25, valid=True, mixed=False):
             ops.append('addall %d %s %d' % (x, p, y))
             if k in CAN_ADDALL and y < NV and pic.kind[y] == k:
                 pic.size[x] += pic.size[y]
+        elif r < 0.90 and k == 'array':
+            # x.append(&y[i], m): a pointer into y's storage, y = x in most cases
+            ny = pic.size[y] if y < NV and pic.kind[y] == k else 0
+            i = rng.choice([0, ny // 2, rng.randrange(ny + 1)])
+            m = rng.choice([0, 1, ny - i, rng.randrange(ny - i + 1)]) if valid else rng.randrange(ny + 2)
+            ops.append('apprange %d %d %d %d' % (x, y, i, m))
+            if i + m <= ny and y < NV and pic.kind[y] == k:
+                pic.size[x] += m
         elif r < 0.90:
             ops.append('remall %d %d' % (x, y))
         elif r < 0.94 and k == 'array':
@@ -166,6 +194,15 @@ def boundary_cases(thorough):
                     cases.append(['new 0 array'] + fill('array', 0, n) + ['resize 0 %d v0.%d' % (m, i)])
             cases.append(['new 0 array'] + fill('array', 0, n) + ['reserve 0 %d' % (n + 5), 'resize 0 %d v0.%d' % (n + 3, i)])
             cases.append(['new 0 array'] + fill('array', 0, n) + ['remat 0 %d' % i, 'ins 0 b - v0.0' if n > 1 else 'ins 0 b - 1'])
+            for m in sorted({1, n - i, (n | 3) - n, (n | 3) - n + 1} - {0}):
+                if 0 < m <= n - i:
+                    # append(&a[i], m): at, below and above the capacity n|3; twice; after a reserve
+                    cases.append(['new 0 array'] + fill('array', 0, n) + ['apprange 0 0 %d %d' % (i, m), 'apprange 0 0 %d %d' % (i, m)])
+                    cases.append(['new 0 array'] + fill('array', 0, n) + ['reserve 0 %d' % (n + m), 'apprange 0 0 %d %d' % (i, m), 'rematit 0 %d' % i])
+            cases.append(['new 0 array'] + fill('array', 0, n) + ['rematit 0 %d' % i, 'rempop 0 f', 'rempop 0 b', 'ins 0 b - v0.0' if n > 3 else 'ins 0 b - 1'])
+        cases.append(['new 0 array'] + fill('array', 0, n) + ['apprange 0 0 0 %d' % n, 'apprange 0 0 %d 0' % n, 'apprange 0 0 0 %d' % (2 * n)])
+        cases.append(['new 0 array'] + fill('array', 0, n) + ['new 1 array'] + fill('array', 1, 3, 50) +
+                     ['apprange 0 1 1 2', 'apprange 1 0 0 %d' % min(n, 2), 'apprange 1 1 2 3', 'apprange 0 0 %d 1' % (n + 1)])
         cases.append(['new 0 array'] + fill('array', 0, n) + ['addall 0 b 0', 'addall 0 b 0'])
         cases.append(['new 0 array'] + fill('array', 0, n) + ['asg 0 0', 'copy 1 0', 'asg 1 1', 'asg 0 1', 'swap 0 0', 'swap 0 1'])
         cases.append(['new 0 array'] + fill('array', 0, n) + ['new 1 array'] + fill('array', 1, 2, 50) +
@@ -193,6 +230,9 @@ def selfarg_cases(thorough):
                 for p in ps:
                     cases.append(base + ['addall 0 %s 0' % p, 'addall 0 %s 0' % p, 'remat 0 0' if n else 'clear 0'])
                 cases.append(base + ['copy 1 0', 'addall 0 b 1', 'addall 1 f 0', 'del 0'])
+            cases.append(base + ['rempop 0 f', 'rempop 0 b', 'rempop 0 b', 'rematit 0 0',
+                                 'ins 0 b %s %s' % ('7' if kind in HAS_KEY else '-', '70' if kind in NEED_VAL else '-'),
+                                 'rempop 0 f', 'rempop 0 f'])
             if kind == 'hashset':
                 cases.append(base + ['remall 0 0', 'ins 0 b 5 -', 'copy 1 0', 'remall 0 1', 'remall 1 1'])
             if n:
@@ -209,19 +249,81 @@ def selfarg_cases(thorough):
     return cases
 
 
+def collision_cases(thorough):
+    """HashMap / HashSet / PoolMap with keys that share a bucket: every insertion order of three
+    (thorough: also four) colliding keys, at the front / the back of the iteration order; one of
+    them removed through each removing entry point; then the removed key is looked up, removed
+    again, re-inserted, another colliding key inserted, the other keys removed, the rest cleared."""
+    cases = []
+    keysets = [[1, 501, 1001]] + ([[1, 501, 1001, 1501]] if thorough else [])
+    for kind in TABLE:
+        va = (lambda z: str(z % 97)) if kind in NEED_VAL else (lambda z: '-')
+        for keys in keysets:
+            for perm in itertools.permutations(keys):
+                for fronts in ([False, True] if len(keys) == 3 else [False]):
+                    base = ['new 0 %s' % kind, 'ins 0 b 7 %s' % va(7)]
+                    order = [7]                                   # iteration order
+                    for j, key in enumerate(perm):
+                        if fronts and j % 2:
+                            base.append('ins 0 f %d %s' % (key, va(key)))
+                            order.insert(0, key)
+                        else:
+                            base.append('ins 0 b %d %s' % (key, va(key)))
+                            order.append(key)
+                    for victim in perm:
+                        i = order.index(victim)
+                        others = [k for k in perm if k != victim]
+                        hows = ['remat 0 %d' % i, 'remkey 0 %d' % victim, 'remkey 0 k0.%d' % i]
+                        if i == 0:
+                            hows.append('rempop 0 f')
+                        if i == len(order) - 1:
+                            hows.append('rempop 0 b')
+                        for how in hows:
+                            cases.append(base + [how, 'remkey 0 %d' % victim, 'ins 0 b %d %s' % (victim, va(5)),
+                                                 'ins 0 f 2001 %s' % va(3), 'remkey 0 %d' % others[0], 'remkey 0 %d' % others[-1],
+                                                 'ins 0 b %d %s' % (others[0], va(1)), 'clear 0', 'ins 0 b %d %s' % (victim, va(2))])
+                            cases.append(base + [how, 'ins 0 b k0.0 %s' % va(4), 'ins 0 b 2501 %s' % va(6), 'rempop 0 b',
+                                                 'remkey 0 %d' % others[0], 'remkey 0 %d' % victim, 'swap 0 0'] +
+                                         (['copy 1 0', 'remkey 1 %d' % others[-1], 'asg 0 1', 'asg 0 0'] if kind in COPYABLE else
+                                          ['new 1 %s' % kind, 'swap 0 1', 'remkey 1 %d' % others[-1], 'ins 0 b %d %s' % (victim, va(8))]))
+    return cases
+
+
+def swap_cases():
+    """swap of two containers that both hold spare item slots (a block has 4 items), then elements
+    are appended to and removed from BOTH sides, swapped back, destroyed in either order"""
+    cases = []
+    for kind in KINDS:
+        if kind not in CAN_SWAP:
+            continue
+        ka = lambda z: str(z) if kind in HAS_KEY else '-'
+        va = lambda z: str(z) if kind in NEED_VAL else '-'
+        ins = lambda x, z: 'ins %d b %s %s' % (x, ka(z), va(10 * z))
+        for n, m in [(1, 2), (0, 3), (4, 1), (5, 5), (3, 0), (2, 6)]:
+            base = ['new 0 %s' % kind] + fill(kind, 0, n) + ['new 1 %s' % kind] + fill(kind, 1, m, 50)
+            for dels in (['del 0', 'del 1'], ['del 1', 'del 0']):
+                cases.append(base + ['swap 0 1', ins(0, 91), ins(1, 92), ins(0, 93), ins(1, 94), 'rempop 0 f', 'rempop 1 b',
+                                     'swap 1 0', ins(1, 95), ins(0, 96), ins(1, 97), ins(0, 98), ins(0, 99)] + dels)
+            cases.append(base + ['remat 0 0' if n else 'clear 0', 'clear 1', 'swap 0 1', ins(0, 91), ins(1, 92), ins(1, 93),
+                                 ins(0, 94), ins(0, 95), ins(0, 96), ins(1, 97), 'clear 0', 'swap 0 1', ins(0, 98), ins(1, 99)])
+    return cases
+
+
 def exhaustive_cases(kind, depth):
     """all histories of `depth` operations over a small alphabet on two variables"""
     ka = lambda z: str(z) if kind in HAS_KEY else '-'
     va = lambda z: str(z) if kind in NEED_VAL else '-'
-    alpha = ['ins 0 b %s %s' % (ka(1), va(5)), 'ins 0 f %s %s' % (ka(2), va(6)),
+    k2 = 501 if kind in TABLE else 2       # table kinds: the second key shares the bucket of the first
+    alpha = ['ins 0 b %s %s' % (ka(1), va(5)), 'ins 0 f %s %s' % (ka(k2), va(6)),
              'ins 0 b %s %s' % ('k0.0' if kind in HAS_KEY else '-', 'v0.0' if kind in NEED_VAL else '-'),
              'remat 0 0', 'clear 0', 'asg 0 0', 'swap 0 1']
     if kind in COPYABLE:
         alpha += ['asg 1 0', 'asg 0 1', 'copy 1 0', 'del 1']
     if kind in CAN_ADDALL:
         alpha += ['addall 0 b 0', 'addall 0 f 1']
+    alpha += ['rempop 0 b']
     if kind == 'array':
-        alpha += ['resize 0 5 v0.0', 'reserve 0 4']
+        alpha += ['resize 0 5 v0.0', 'reserve 0 4', 'apprange 0 0 0 2', 'rematit 0 1']
     if kind == 'hashset':
         alpha += ['remall 0 0', 'remall 0 1']
     if kind not in COPYABLE:
@@ -386,6 +488,13 @@ class C04(Check):
             for _ in range(80 if thorough else 20):
                 cases.append(gen_case(rng, k, rng.randrange(5, 30), alias=0.4, valid=False, mixed=rng.random() < 0.5))
         out.append(Stream('malformed', cases, note='dead variables, bad indices, wrong-typed references, mixed kinds'))
+        cases = []
+        for k in TABLE:
+            for _ in range(120 if thorough else 40):
+                cases.append(gen_case(rng, k, rng.randrange(8, 40), collide=True))
+        out.append(Stream('collide-random', cases, note='hash-table kinds, keys drawn from 1 501 1001 1501 2 502 (shared buckets)'))
+        out.append(Stream('collide', collision_cases(thorough), note='colliding keys in every insertion order, every removing entry point'))
+        out.append(Stream('swap', swap_cases(), note='swap with spare item slots on both sides, then growth on both sides'))
         out.append(Stream('boundary', boundary_cases(thorough), note='Array growth boundary with own elements'))
         out.append(Stream('selfarg', selfarg_cases(thorough), note='self-assignment, copies of copies, container as its own argument'))
         if thorough:
